@@ -136,6 +136,15 @@ func (s *Staking) Plan(c *Ctx) []hist.TxSpec {
 	case 2:
 		s.firstUn = c.H
 		out = append(out, s.unstake(c, vals[0], 600, "validator unstakes part"))
+		if !s.Exit && len(cands) > 3 {
+			// the first validator's stake address also funds a candidate, with three times as much (the evidence
+			// script finds the first validator guilty soon after: the cut is a share of its own stake)
+			big := *cands[len(cands)-2]
+			big.Stake = vals[0].Stake
+			if cur := StakeOf(c.S, vals[0].ValAddr).Int64(); cur > 0 {
+				out = append(out, s.stake(c, &big, 3*cur, "candidate staked in by the first validator's stake address with three times its stake"))
+			}
+		}
 		if len(cands) > 1 {
 			out = append(out, s.stake(c, cands[1], min, "second candidate stakes exactly the minimum"))
 		}
@@ -155,15 +164,16 @@ func (s *Staking) Plan(c *Ctx) []hist.TxSpec {
 	}
 	if s.n == 5 && !s.Exit && len(cands) > 2 {
 		// one stake address funds two validators: the last candidate is staked in by the first validator's stake address
+		// (the second genesis validator's: the evidence script finds that validator guilty later on)
 		sh := *cands[len(cands)-1]
-		sh.Stake = vals[0].Stake
+		sh.Stake = vals[1].Stake
 		out = append(out, s.stake(c, &sh, min+100, "candidate staked in by another validator's stake address"))
 		return out
 	}
 	if s.n == 9 && !s.Exit && len(cands) > 2 {
 		sh := *cands[len(cands)-1]
-		sh.Stake = vals[0].Stake
-		out = append(out, s.unstake(c, vals[0], 200, "unstake from the first of two validators funded by one stake address"), s.unstake(c, &sh, 50, "unstake from the second of two validators funded by one stake address"))
+		sh.Stake = vals[1].Stake
+		out = append(out, s.unstake(c, vals[1], 200, "unstake from the first of two validators funded by one stake address"), s.unstake(c, &sh, 50, "unstake from the second of two validators funded by one stake address"))
 		return out
 	}
 	if s.firstUn > 0 && !s.swept && !s.Exit && c.H > s.firstUn+c.W.P.StakeMaturity {
@@ -173,6 +183,18 @@ func (s *Staking) Plan(c *Ctx) []hist.TxSpec {
 			out = append(out, s.withdraw(c, vals[0], b.Int64(), "withdraw all that is withdrawable right after the first unstake matured"))
 			return out
 		}
+	}
+	if (s.n == 12 || s.n == 13) && !s.Exit && len(cands) > 0 {
+		// a validator takes its whole stake out and stakes in again in the very next block
+		v := cands[0]
+		if s.n == 12 {
+			if cur := StakeOf(c.S, v.ValAddr).Int64(); cur > 0 {
+				out = append(out, s.unstake(c, v, cur, "a validator unstakes everything (and stakes in again in the next block)"))
+			}
+		} else {
+			out = append(out, s.stake(c, v, min+5, "stake in again one block after unstaking everything"))
+		}
+		return out
 	}
 	if s.Exit && (s.n == 6 || s.n == 22) {
 		// every genesis validator but the two strongest drops to a stake of 1 in the same block
